@@ -83,7 +83,6 @@ theorem EStep.errors_ext {s s' : St} (st : EStep s s') : ∃ Δ, s'.errors = s.e
   cases st with
   | incReg => exact ⟨[], by simp [St.incReg, St.mapFrames]⟩
   | emit i _ _ _ _ => exact ⟨[], by simp [St.push, St.mapFrames]⟩
-  | branch i _ _ _ _ _ => exact ⟨[], by simp [St.push, St.mapFrames]⟩
   | incEmit i _ _ _ _ => exact ⟨[], by simp [St.push, St.incReg, St.mapFrames]⟩
   | addErr k v l o => exact ⟨[⟨k, v, l, o⟩], rfl⟩
   | declare n v i _ _ _ _ _ =>
@@ -98,6 +97,11 @@ theorem ESteps.errors_ext {s s' : St} (h : ESteps s s') : ∃ Δ, s'.errors = s.
     obtain ⟨Δ, hΔ⟩ := ih
     obtain ⟨Δ2, hΔ2⟩ := st.errors_ext
     exact ⟨Δ ++ Δ2, by rw [hΔ2, hΔ]; simp⟩
+
+theorem BSteps.errors_ext {s s' : St} (h : BSteps s s') : ∃ Δ, s'.errors = s.errors ++ Δ := by
+  obtain ⟨s1, h1, rfl | ⟨i, rfl, _⟩⟩ := h
+  · exact h1.errors_ext
+  · exact h1.errors_ext
 
 theorem Fail.mono {s s1 s2 : St} {vs : List Viol} (h : Fail s s1 vs) (hx : ∃ Δ, s2.errors = s1.errors ++ Δ)
     (ws : List Viol) : Fail s s2 (vs ++ ws) := by
